@@ -272,6 +272,129 @@ theorem Subs.fwdActiveBits_tree : (s : Subs) → s.PlainAll = true → (rq : Req
       rw [Subs.fwdActiveBits_tree r hp.2 rq hk hn w1 w2]
 end
 
+/-! ### the tree a request pass returns does not depend on the queue index either -/
+
+mutual
+theorem Node.request_treeK : (n : Node) → n.Plain = true → (rq1 rq2 : Req) → rq1.kind = rq2.kind →
+    rq1.kind.plain = true → rq1.kind ≠ .schedule → (w1 w2 : World U) → (n.request rq1 w1).1 = (n.request rq2 w2).1
+  | .leaf id inj, _, rq1, rq2, _, _, _, w1, w2 => by simp only [Node.request]
+  | .ortho id rid inj h s, hp, rq1, rq2, he, hk, hn, w1, w2 => by
+    simp only [Node.Plain] at hp
+    simp only [Node.request]
+    rw [Subs.requestAll_treeK s hp rq1 rq2 he hk hn _ (w2.pin id rq2.index)]
+  | .compo id rid inj h st a r q m s, hp, rq1, rq2, he, hk, hn, w1, w2 => by
+    simp only [Node.Plain, Bool.and_eq_true] at hp
+    simp only [Node.request]
+    rw [← he]
+    rcases effectiveKind_plain hp.1 hk hn with hq | hq
+    · simp only [hq]
+      rw [Subs.requestAt_treeK s hp.2 0 rq1 rq2 he hk hn _ (w2.pin id rq2.index)]
+    · simp only [hq]
+      rw [Subs.requestAt_treeK s hp.2 (r.getD 0) rq1 rq2 he hk hn _ (w2.pin id rq2.index)]
+theorem Subs.requestAt_treeK : (s : Subs) → s.PlainAll = true → (i : Nat) → (rq1 rq2 : Req) → rq1.kind = rq2.kind →
+    rq1.kind.plain = true → rq1.kind ≠ .schedule → (w1 w2 : World U) →
+    (s.requestAt i rq1 w1).1 = (s.requestAt i rq2 w2).1
+  | .nil, _, _, rq1, rq2, _, _, _, w1, w2 => by simp only [Subs.requestAt]
+  | .cons b n r, hp, 0, rq1, rq2, he, hk, hn, w1, w2 => by
+    simp only [Subs.PlainAll, Bool.and_eq_true] at hp
+    simp only [Subs.requestAt]; rw [Node.request_treeK n hp.1 rq1 rq2 he hk hn w1 w2]
+  | .cons b n r, hp, i+1, rq1, rq2, he, hk, hn, w1, w2 => by
+    simp only [Subs.PlainAll, Bool.and_eq_true] at hp
+    simp only [Subs.requestAt]; rw [Subs.requestAt_treeK r hp.2 i rq1 rq2 he hk hn w1 w2]
+theorem Subs.requestAll_treeK : (s : Subs) → s.PlainAll = true → (rq1 rq2 : Req) → rq1.kind = rq2.kind →
+    rq1.kind.plain = true → rq1.kind ≠ .schedule → (w1 w2 : World U) →
+    (s.requestAll rq1 w1).1 = (s.requestAll rq2 w2).1
+  | .nil, _, rq1, rq2, _, _, _, w1, w2 => by simp only [Subs.requestAll]
+  | .cons b n r, hp, rq1, rq2, he, hk, hn, w1, w2 => by
+    simp only [Subs.PlainAll, Bool.and_eq_true] at hp
+    simp only [Subs.requestAll]
+    rw [Node.request_treeK n hp.1 rq1 rq2 he hk hn w1 w2,
+      Subs.requestAll_treeK r hp.2 rq1 rq2 he hk hn _ (n.request rq2 w2).2]
+end
+
+mutual
+theorem Node.fwdRequest_treeK : (n : Node) → n.Plain = true → (rq1 rq2 : Req) → rq1.kind = rq2.kind →
+    rq1.kind.plain = true → rq1.kind ≠ .schedule → (w1 w2 : World U) →
+    (n.fwdRequest rq1 w1).1 = (n.fwdRequest rq2 w2).1
+  | .leaf id inj, _, rq1, rq2, _, _, _, w1, w2 => by simp only [Node.fwdRequest]
+  | .compo id rid inj h st a r q m s, hp, rq1, rq2, he, hk, hn, w1, w2 => by
+    cases q with
+    | some qi =>
+      simp only [Node.Plain, Bool.and_eq_true] at hp
+      simp only [Node.fwdRequest]
+      rw [Subs.fwdRequestAt_treeK s hp.2 qi rq1 rq2 he hk hn _ (w2.pin id rq2.index)]
+    | none =>
+      simp only [Node.fwdRequest]
+      exact Node.request_treeK _ hp rq1 rq2 he hk hn _ _
+  | .ortho id rid inj h s, hp, rq1, rq2, he, hk, hn, w1, w2 => by
+    simp only [Node.fwdRequest]
+    split
+    · simp only [Node.Plain] at hp
+      dsimp only
+      rw [Subs.fwdRequestAll_treeK s hp rq1 rq2 he hk hn _ (w2.pin id rq2.index)]
+    · exact Node.request_treeK _ hp rq1 rq2 he hk hn _ _
+theorem Subs.fwdRequestAt_treeK : (s : Subs) → s.PlainAll = true → (i : Nat) → (rq1 rq2 : Req) →
+    rq1.kind = rq2.kind → rq1.kind.plain = true → rq1.kind ≠ .schedule → (w1 w2 : World U) →
+    (s.fwdRequestAt i rq1 w1).1 = (s.fwdRequestAt i rq2 w2).1
+  | .nil, _, _, rq1, rq2, _, _, _, w1, w2 => by simp only [Subs.fwdRequestAt]
+  | .cons b n r, hp, 0, rq1, rq2, he, hk, hn, w1, w2 => by
+    simp only [Subs.PlainAll, Bool.and_eq_true] at hp
+    simp only [Subs.fwdRequestAt]; rw [Node.fwdRequest_treeK n hp.1 rq1 rq2 he hk hn w1 w2]
+  | .cons b n r, hp, i+1, rq1, rq2, he, hk, hn, w1, w2 => by
+    simp only [Subs.PlainAll, Bool.and_eq_true] at hp
+    simp only [Subs.fwdRequestAt]; rw [Subs.fwdRequestAt_treeK r hp.2 i rq1 rq2 he hk hn w1 w2]
+theorem Subs.fwdRequestAll_treeK : (s : Subs) → s.PlainAll = true → (rq1 rq2 : Req) → rq1.kind = rq2.kind →
+    rq1.kind.plain = true → rq1.kind ≠ .schedule → (w1 w2 : World U) →
+    (s.fwdRequestAll rq1 w1).1 = (s.fwdRequestAll rq2 w2).1
+  | .nil, _, rq1, rq2, _, _, _, w1, w2 => by simp only [Subs.fwdRequestAll]
+  | .cons b n r, hp, rq1, rq2, he, hk, hn, w1, w2 => by
+    simp only [Subs.PlainAll, Bool.and_eq_true] at hp
+    simp only [Subs.fwdRequestAll]
+    rw [Node.fwdRequest_treeK n hp.1 rq1 rq2 he hk hn w1 w2,
+      Subs.fwdRequestAll_treeK r hp.2 rq1 rq2 he hk hn _ (n.fwdRequest rq2 w2).2]
+end
+
+mutual
+theorem Node.fwdActive_treeK : (n : Node) → n.Plain = true → (rq1 rq2 : Req) → rq1.kind = rq2.kind →
+    rq1.kind.plain = true → rq1.kind ≠ .schedule → (w1 w2 : World U) →
+    (n.fwdActive rq1 w1).1 = (n.fwdActive rq2 w2).1
+  | .leaf id inj, _, rq1, rq2, _, _, _, w1, w2 => by simp only [Node.fwdActive]
+  | .compo id rid inj h st a r q m s, hp, rq1, rq2, he, hk, hn, w1, w2 => by
+    simp only [Node.Plain, Bool.and_eq_true] at hp
+    cases q with
+    | none =>
+      cases a with
+      | none => simp only [Node.fwdActive]
+      | some ai => simp only [Node.fwdActive]; rw [Subs.fwdActiveAt_treeK s hp.2 ai rq1 rq2 he hk hn w1 w2]
+    | some qi => simp only [Node.fwdActive]; rw [Subs.fwdRequestAt_treeK s hp.2 qi rq1 rq2 he hk hn w1 w2]
+  | .ortho id rid inj h s, hp, rq1, rq2, he, hk, hn, w1, w2 => by
+    simp only [Node.Plain] at hp
+    simp only [Node.fwdActive]; rw [Subs.fwdActiveBits_treeK s hp rq1 rq2 he hk hn w1 w2]
+theorem Subs.fwdActiveAt_treeK : (s : Subs) → s.PlainAll = true → (i : Nat) → (rq1 rq2 : Req) →
+    rq1.kind = rq2.kind → rq1.kind.plain = true → rq1.kind ≠ .schedule → (w1 w2 : World U) →
+    (s.fwdActiveAt i rq1 w1).1 = (s.fwdActiveAt i rq2 w2).1
+  | .nil, _, _, rq1, rq2, _, _, _, w1, w2 => by simp only [Subs.fwdActiveAt]
+  | .cons b n r, hp, 0, rq1, rq2, he, hk, hn, w1, w2 => by
+    simp only [Subs.PlainAll, Bool.and_eq_true] at hp
+    simp only [Subs.fwdActiveAt]; rw [Node.fwdActive_treeK n hp.1 rq1 rq2 he hk hn w1 w2]
+  | .cons b n r, hp, i+1, rq1, rq2, he, hk, hn, w1, w2 => by
+    simp only [Subs.PlainAll, Bool.and_eq_true] at hp
+    simp only [Subs.fwdActiveAt]; rw [Subs.fwdActiveAt_treeK r hp.2 i rq1 rq2 he hk hn w1 w2]
+theorem Subs.fwdActiveBits_treeK : (s : Subs) → s.PlainAll = true → (rq1 rq2 : Req) → rq1.kind = rq2.kind →
+    rq1.kind.plain = true → rq1.kind ≠ .schedule → (w1 w2 : World U) →
+    (s.fwdActiveBits rq1 w1).1 = (s.fwdActiveBits rq2 w2).1
+  | .nil, _, rq1, rq2, _, _, _, w1, w2 => by simp only [Subs.fwdActiveBits]
+  | .cons b n r, hp, rq1, rq2, he, hk, hn, w1, w2 => by
+    simp only [Subs.PlainAll, Bool.and_eq_true] at hp
+    simp only [Subs.fwdActiveBits]
+    split
+    · dsimp only
+      rw [Node.fwdActive_treeK n hp.1 rq1 rq2 he hk hn w1 w2,
+        Subs.fwdActiveBits_treeK r hp.2 rq1 rq2 he hk hn _ (n.fwdActive rq2 w2).2]
+    · dsimp only
+      rw [Subs.fwdActiveBits_treeK r hp.2 rq1 rq2 he hk hn w1 w2]
+end
+
 /-! ### `Plain` is a property of the structure -/
 
 mutual
@@ -309,12 +432,110 @@ theorem applyRequest_tree (m1 m2 : Mach U) (t : Transition) (i : Nat) (hr : m1.r
           rw [Node.Plain_of_frozen (Node.frozen_of_clearMarks (Node.mark_clearMarks m2.root p))]; exact hp
         exact Node.fwdActive_tree _ hp' ⟨t.kind, some i⟩ hk hn _ _
 
+/-- On plain machines `applyRequest` computes the same tree whatever the world and the queue index. -/
+theorem applyRequest_treeK (m1 m2 : Mach U) (t : Transition) (i j : Nat) (hr : m1.root = m2.root)
+    (hp : m1.root.Plain = true) (hk : t.kind.plain = true) :
+    (m1.applyRequest t i).root = (m2.applyRequest t j).root := by
+  unfold applyRequest
+  dsimp only
+  rw [hr]
+  rw [hr] at hp
+  split
+  · split <;> rfl
+  · next k hns =>
+    have hn : t.kind ≠ .schedule := fun h => hns h
+    split
+    · exact Node.request_treeK m2.root hp ⟨t.kind, some i⟩ ⟨t.kind, some j⟩ rfl hk hn _ _
+    · split
+      · rfl
+      · next p _ =>
+        have hp' : (m2.root.mark p).1.Plain = true := by
+          rw [Node.Plain_of_frozen (Node.frozen_of_clearMarks (Node.mark_clearMarks m2.root p))]; exact hp
+        exact Node.fwdActive_treeK _ hp' ⟨t.kind, some i⟩ ⟨t.kind, some j⟩ rfl hk hn _ _
+
+/-- … and whether the pass pins at all: the entries of an over-long history replayed without an index leave the same
+request marks. -/
+theorem applyRequestNoPin_treeK (m1 m2 : Mach U) (t : Transition) (j : Nat) (hr : m1.root = m2.root)
+    (hp : m1.root.Plain = true) (hk : t.kind.plain = true) :
+    (m1.applyRequestNoPin t).root = (m2.applyRequest t j).root := by
+  unfold applyRequest applyRequestNoPin
+  dsimp only
+  rw [hr]
+  rw [hr] at hp
+  split
+  · split <;> rfl
+  · next k hns =>
+    have hn : t.kind ≠ .schedule := fun h => hns h
+    split
+    · exact Node.request_treeK m2.root hp ⟨t.kind, none⟩ ⟨t.kind, some j⟩ rfl hk hn _ _
+    · split
+      · rfl
+      · next p _ =>
+        have hp' : (m2.root.mark p).1.Plain = true := by
+          rw [Node.Plain_of_frozen (Node.frozen_of_clearMarks (Node.mark_clearMarks m2.root p))]; exact hp
+        exact Node.fwdActive_treeK _ hp' ⟨t.kind, none⟩ ⟨t.kind, some j⟩ rfl hk hn _ _
+
+/-- the tree (request marks included) does not depend on the index: `applyRequestNoPin` marks what `applyRequest`
+marks -/
+theorem applyRequestNoPin_root (m : Mach U) (t : Transition) (i : Nat) (hp : m.root.Plain = true)
+    (hk : t.kind.plain = true) : (m.applyRequestNoPin t).root = (m.applyRequest t i).root :=
+  applyRequestNoPin_treeK m m t i rfl hp hk
+
 theorem applyRequest_Plain (m : Mach U) (t : Transition) (i : Nat) :
     (m.applyRequest t i).root.Plain = m.root.Plain :=
   Node.Plain_of_frozen (applyRequest_frozen m t i)
 
 theorem applyRequest_cfg (m : Mach U) (t : Transition) (i : Nat) : (m.applyRequest t i).w.cfg = m.w.cfg :=
   (applyRequest_rel m t i).cfg
+
+theorem applyRequestNoPin_Plain (m : Mach U) (t : Transition) :
+    (m.applyRequestNoPin t).root.Plain = m.root.Plain :=
+  Node.Plain_of_frozen (applyRequestNoPin_frozen m t)
+
+theorem applyRequestNoPin_cfg (m : Mach U) (t : Transition) : (m.applyRequestNoPin t).w.cfg = m.w.cfg :=
+  (applyRequestNoPin_rel m t 0).cfg
+
+theorem foldl_applyRequest_cfg : (l : List (Transition × Nat)) → (m : Mach U) →
+    (l.foldl (fun m (x : Transition × Nat) => m.applyRequest x.1 x.2) m).w.cfg = m.w.cfg
+  | [], _ => rfl
+  | x :: rest, m => by
+    simp only [List.foldl_cons]
+    exact (foldl_applyRequest_cfg rest _).trans (applyRequest_cfg m x.1 x.2)
+
+/-- the apply phase of a replay leaves the configuration alone -/
+theorem applyRequests_cfg (m : Mach U) (ts : List Transition) : (m.applyRequests ts).1.w.cfg = m.w.cfg :=
+  foldl_applyStep_cfg ts.zipIdx ({ m with w := m.w.freshControl } : Mach U)
+
+theorem applyStep_Plain (m : Mach U) (x : Transition × Nat) : (applyStep m x).root.Plain = m.root.Plain := by
+  unfold applyStep
+  split
+  · exact applyRequest_Plain m x.1 x.2
+  · exact applyRequestNoPin_Plain m x.1
+
+/-- On plain machines the loop of `applyRequests` (which stops pinning at `historyCap`) computes the tree of the loop
+that applies every entry with its index, whatever the two worlds. -/
+theorem foldl_applyStep_root : (l : List (Transition × Nat)) → (m1 m2 : Mach U) → m1.root = m2.root →
+    m1.root.Plain = true → (∀ x ∈ l, x.1.kind.plain = true) →
+    (l.foldl applyStep m1).root = (l.foldl (fun m (x : Transition × Nat) => m.applyRequest x.1 x.2) m2).root
+  | [], _, _, hr, _, _ => hr
+  | x :: rest, m1, m2, hr, hp, hk => by
+    simp only [List.foldl_cons]
+    refine foldl_applyStep_root rest _ _ ?_ (by rw [applyStep_Plain]; exact hp)
+      (fun y hy => hk y (List.mem_cons_of_mem _ hy))
+    unfold applyStep
+    split
+    · exact applyRequest_treeK m1 m2 x.1 x.2 x.2 hr hp (hk x List.mem_cons_self)
+    · exact applyRequestNoPin_treeK m1 m2 x.1 x.2 hr hp (hk x List.mem_cons_self)
+
+/-- On plain machines the tree after the apply phase of a replay is the one the indexed loop computes — the fix
+6770c20 (no pin beyond `historyCap`) does not change what an over-long history does to the registry. -/
+theorem applyRequests_root_plain (m : Mach U) (ts : List Transition) (hp : m.root.Plain = true)
+    (hk : ∀ t ∈ ts, t.kind.plain = true) :
+    (m.applyRequests ts).1.root =
+      (ts.zipIdx.foldl (fun m (x : Transition × Nat) => m.applyRequest x.1 x.2)
+        ({ m with w := m.w.freshControl } : Mach U)).root := by
+  rw [applyRequests_eq]
+  exact foldl_applyStep_root ts.zipIdx _ _ rfl hp (fun x hx => hk x.1 (List.of_mem_zip (List.zipIdx_eq_zip_range' ▸ hx)).1)
 
 /-- On plain machines the apply phase computes the same tree whatever the world. -/
 theorem applyAll_tree : (ts : List Transition) → (m1 m2 : Mach U) → (i : Nat) → m1.root = m2.root →
@@ -355,7 +576,8 @@ theorem roundStep_approved_changed (initial : Bool) (m : Mach U) (backup : Node)
 /-- **Replay reproduces a single-round step.** Authority `a` processes its queue `ts` in one approved round;
 a replica `r` holding the same tree (same active, resumable sub-states, no marks pending on either side)
 replays `ts`: it answers `true`, consults no guard, and ends with exactly the authority's tree — active
-configuration and resumable marks — and with `previousTransitions = ts`.  Hypotheses: the machine is
+configuration and resumable marks — and with `previousTransitions` = the first `historyCap` entries of
+`ts` (the copy into the bounded array drops the rest).  Hypotheses: the machine is
 `Plain` (no `select`, utility or random resolution is involved, so the apply phase needs no callback
 answers), every destination is a state of the machine, request kinds are `change / restart / resume /
 schedule`. -/
@@ -364,7 +586,7 @@ theorem replay_reproduces_single_round_step (a r : Mach U) (ts : List Transition
     (hcfg : r.w.cfg.stateCount = a.w.cfg.stateCount) (hplain : a.root.Plain = true)
     (hk : ∀ t ∈ ts, t.kind.plain = true) (hd : ∀ t ∈ ts, t.dest < a.w.cfg.stateCount) :
     (r.replayTransitions ts).2 = true ∧ (r.replayTransitions ts).1.root = a.processRequest.root ∧
-    (r.replayTransitions ts).1.w.previous = ts := by
+    (r.replayTransitions ts).1.w.previous = ts.take r.w.cfg.historyCap := by
   obtain ⟨hloop, hts, ho⟩ := single_round_step a ts .approved hlog
   have hreq : a.stepStart.w.requests = a.w.requests := by
     unfold stepStart World.freshControl; exact World.clearTargets_requests _
@@ -419,11 +641,9 @@ theorem replay_reproduces_single_round_step (a r : Mach U) (ts : List Transition
     subst hr0; show r.w.clearTargets.cfg.stateCount = _; rw [World.clearTargets_cfg]; exact hcfg
   -- the replica's apply phase yields the authority's applied tree
   have happ : (r0.applyRequests ts).1.root = (a.stepStart.applyAll ts 0).root := by
-    unfold applyRequests
-    dsimp only
     have h1 := applyAll_eq_foldl ts ({ r0 with w := r0.w.freshControl } : Mach U) 0
       (fun t ht => by show t.dest < r0.w.cfg.stateCount; rw [hr0cfg]; exact hd t ht)
-    rw [← h1]
+    rw [applyRequests_root_plain r0 ts (by rw [hr0root]; exact hplain) hk, ← h1]
     refine applyAll_tree ts _ _ 0 hr0root ?_ (by show r0.root.Plain = true; rw [hr0root]; exact hplain) hk
     show r0.w.cfg.stateCount = a.stepStart.w.cfg.stateCount
     rw [stepStart_cfg]; exact hr0cfg
@@ -431,9 +651,11 @@ theorem replay_reproduces_single_round_step (a r : Mach U) (ts : List Transition
     have : (r0.applyRequests ts).2 = (r0.applyRequests ts).1.root.marksDiffer r0.root := by
       unfold applyRequests; rfl
     rw [this, happ, hr0root]; exact hchanged
-  generalize r0.applyRequests ts = res at happ hchg
+  have hcfg1 : (r0.applyRequests ts).1.w.cfg = r.w.cfg := by
+    rw [applyRequests_cfg]; subst hr0; exact World.clearTargets_cfg _
+  generalize r0.applyRequests ts = res at happ hchg hcfg1
   obtain ⟨r1, chg⟩ := res
-  dsimp only at happ hchg ⊢
+  dsimp only at happ hchg hcfg1 ⊢
   rw [hchg]
   simp only [if_true]
   refine ⟨trivial, ?_, ?_⟩
@@ -442,7 +664,7 @@ theorem replay_reproduces_single_round_step (a r : Mach U) (ts : List Transition
     rw [happ]
     congr 1
     exact Node.commit_tree _ _ _
-  · rw [updActivity_w]
+  · rw [updActivity_w, ← hcfg1]
     exact (Node.commit_steps _ _ _ (Steps.refl _)).frame.previous
 
 end Mach
@@ -454,20 +676,6 @@ def NoGuardEv : Event U → Prop
 
 namespace Mach
 
-theorem foldl_applyRequest_trace : (l : List (Transition × Nat)) → (m : Mach U) →
-    ∃ evs, (l.foldl (fun m (x : Transition × Nat) => m.applyRequest x.1 x.2) m).w.trace = evs ++ m.w.trace ∧
-      ∀ e ∈ evs, FwdEv e
-  | [], m => ⟨[], rfl, fun _ h => nomatch h⟩
-  | (t, i) :: rest, m => by
-    simp only [List.foldl_cons]
-    obtain ⟨e1, t1, p1⟩ := (applyRequest_rel m t i).trace
-    obtain ⟨e2, t2, p2⟩ := foldl_applyRequest_trace rest (m.applyRequest t i)
-    refine ⟨e2 ++ e1, by rw [t2, t1, List.append_assoc], ?_⟩
-    intro e he
-    rcases List.mem_append.mp he with h | h
-    · exact p2 e h
-    · exact p1 e h
-
 /-- `replayTransitions` consults no guard: its events are forward-pass and lifecycle callbacks only. -/
 theorem replay_trace (m : Mach U) (ts : List Transition) :
     ∃ evs, (m.replayTransitions ts).1.w.trace = evs ++ m.w.trace ∧ ∀ e ∈ evs, NoGuardEv e := by
@@ -477,13 +685,13 @@ theorem replay_trace (m : Mach U) (ts : List Transition) :
   dsimp only
   split
   · exact ⟨[], by rw [List.nil_append]; exact h0, fun _ h => nomatch h⟩
-  · unfold applyRequests
-    dsimp only
-    obtain ⟨e1, t1, p1⟩ := foldl_applyRequest_trace (ts.zipIdx)
-      ({ m with w := ({ m.w.clearTargets with previous := [] } : World U).freshControl } : Mach U)
-    have t1' : (List.foldl (fun m (x : Transition × Nat) => m.applyRequest x.1 x.2)
-        ({ m with w := ({ m.w.clearTargets with previous := [] } : World U).freshControl } : Mach U) ts.zipIdx).w.trace =
+  · obtain ⟨e1, t1, p1⟩ := (applyRequests_rel ({ m with w := { m.w.clearTargets with previous := [] } } : Mach U) ts).trace
+    have t1' : (Mach.applyRequests ({ m with w := { m.w.clearTargets with previous := [] } } : Mach U) ts).1.w.trace =
         e1 ++ m.w.trace := by rw [t1]; show e1 ++ ({ m.w.clearTargets with previous := [] } : World U).trace = _; rw [h0]
+    clear t1
+    generalize Mach.applyRequests ({ m with w := { m.w.clearTargets with previous := [] } } : Mach U) ts = res at t1'
+    obtain ⟨m1, chg⟩ := res
+    dsimp only at t1' ⊢
     have hfw : ∀ e ∈ e1, NoGuardEv e := by
       intro e he
       cases e with
@@ -507,6 +715,185 @@ theorem replay_trace (m : Mach U) (ts : List Transition) :
           rw [hc]; decide
       · exact hfw e h
     · exact ⟨e1, t1', hfw⟩
+
+/-! ### what a replay leaves in `previousTransitions`
+
+The list handed to `replayTransitions` / `replayEnter` is copied with the bounded `DynamicArrayT::emplace`:
+only its first `historyCap = COMPO_COUNT × SUBSTITUTION_LIMIT` entries are kept. -/
+
+theorem applyRequests_previous (m : Mach U) (ts : List Transition) :
+    (m.applyRequests ts).1.w.previous = m.w.previous :=
+  (applyRequests_rel m ts).previous
+
+theorem replayTransitions_cfg (m : Mach U) (ts : List Transition) : (m.replayTransitions ts).1.w.cfg = m.w.cfg := by
+  have h0 : ({ m with w := { m.w.clearTargets with previous := [] } } : Mach U).w.cfg = m.w.cfg :=
+    World.clearTargets_cfg _
+  unfold replayTransitions
+  dsimp only
+  split
+  · exact h0
+  · have hc := applyRequests_cfg ({ m with w := { m.w.clearTargets with previous := [] } } : Mach U) ts
+    generalize Mach.applyRequests ({ m with w := { m.w.clearTargets with previous := [] } } : Mach U) ts = res at hc
+    obtain ⟨m1, chg⟩ := res
+    dsimp only at hc ⊢
+    split
+    · dsimp only
+      rw [updActivity_w]
+      exact (Node.commit_steps _ _ _ (Steps.refl _)).frame.cfg.trans (hc.trans h0)
+    · exact hc.trans h0
+
+/-- `replayTransitions ts`: answering `true` it leaves the first `historyCap` entries of `ts` in
+`previousTransitions`, answering `false` it leaves them empty. -/
+theorem replayTransitions_previous (m : Mach U) (ts : List Transition) :
+    (m.replayTransitions ts).1.w.previous =
+      if (m.replayTransitions ts).2 then ts.take m.w.cfg.historyCap else [] := by
+  have h0 : ({ m with w := { m.w.clearTargets with previous := [] } } : Mach U).w.cfg = m.w.cfg :=
+    World.clearTargets_cfg _
+  unfold replayTransitions
+  dsimp only
+  split
+  · rfl
+  · have hc := applyRequests_cfg ({ m with w := { m.w.clearTargets with previous := [] } } : Mach U) ts
+    have hp := applyRequests_previous ({ m with w := { m.w.clearTargets with previous := [] } } : Mach U) ts
+    generalize Mach.applyRequests ({ m with w := { m.w.clearTargets with previous := [] } } : Mach U) ts = res at hc hp
+    obtain ⟨m1, chg⟩ := res
+    dsimp only at hc hp ⊢
+    split
+    · dsimp only
+      rw [updActivity_w, if_pos rfl, ← h0, ← hc]
+      exact (Node.commit_steps _ _ _ (Steps.refl _)).frame.previous
+    · exact hp
+
+theorem replayEnter_cfg (m : Mach U) (ts : List Transition) : (m.replayEnter ts).1.w.cfg = m.w.cfg := by
+  unfold replayEnter
+  dsimp only
+  split
+  · exact World.clearTargets_cfg _
+  · have c0 : (m.root.request ⟨.change, none⟩ ((m.w.clearTargets.freshControl).snapshot m.root true false)).2.cfg = m.w.cfg :=
+      (Node.request_steps m.root ⟨.change, none⟩ _ _ (Steps.refl _)).frame.cfg.trans (World.clearTargets_cfg _)
+    generalize m.root.request ⟨.change, none⟩ ((m.w.clearTargets.freshControl).snapshot m.root true false) = r0 at c0
+    obtain ⟨root1, w1⟩ := r0
+    dsimp only at c0 ⊢
+    have hc := applyRequests_cfg ({ m with root := root1, w := w1 } : Mach U) ts
+    generalize Mach.applyRequests ({ m with root := root1, w := w1 } : Mach U) ts = res at hc
+    obtain ⟨m1, chg⟩ := res
+    dsimp only at hc ⊢
+    split
+    · dsimp only
+      rw [updActivity_w]
+      exact (Node.enter_steps _ _ _ (Steps.refl _)).frame.cfg.trans (hc.trans c0)
+    · exact hc.trans c0
+
+/-- `replayEnter ts`: answering `true` it leaves the first `historyCap` entries of `ts` in
+`previousTransitions`, answering `false` it leaves `previousTransitions` as they were. -/
+theorem replayEnter_previous (m : Mach U) (ts : List Transition) :
+    (m.replayEnter ts).1.w.previous =
+      if (m.replayEnter ts).2 then ts.take m.w.cfg.historyCap else m.w.previous := by
+  have hct : m.w.clearTargets.previous = m.w.previous := by
+    unfold World.clearTargets; split <;> rfl
+  unfold replayEnter
+  dsimp only
+  split
+  · exact hct
+  · have s0 := (Node.request_steps m.root ⟨.change, none⟩
+      ((m.w.clearTargets.freshControl).snapshot m.root true false) _ (Steps.refl _)).frame
+    have c0 : (m.root.request ⟨.change, none⟩ ((m.w.clearTargets.freshControl).snapshot m.root true false)).2.cfg = m.w.cfg :=
+      s0.cfg.trans (World.clearTargets_cfg _)
+    have p0 : (m.root.request ⟨.change, none⟩ ((m.w.clearTargets.freshControl).snapshot m.root true false)).2.previous =
+        m.w.previous := s0.previous.trans hct
+    clear s0
+    generalize m.root.request ⟨.change, none⟩ ((m.w.clearTargets.freshControl).snapshot m.root true false) = r0 at c0 p0
+    obtain ⟨root1, w1⟩ := r0
+    dsimp only at c0 p0 ⊢
+    have hc := applyRequests_cfg ({ m with root := root1, w := w1 } : Mach U) ts
+    have hp := applyRequests_previous ({ m with root := root1, w := w1 } : Mach U) ts
+    generalize Mach.applyRequests ({ m with root := root1, w := w1 } : Mach U) ts = res at hc hp
+    obtain ⟨m1, chg⟩ := res
+    dsimp only at hc hp ⊢
+    split
+    · dsimp only
+      rw [updActivity_w, if_pos rfl, ← c0, ← hc]
+      exact (Node.enter_steps _ _ _ (Steps.refl _)).frame.previous
+    · exact hp.trans p0
+
+/-! ### what a replay leaves in `transitionTargets`
+
+Both replays clear `transitionTargets` first; their apply phase pins entry `i` of the list only while
+`i < historyCap` (`applyStep`, /repo fix 6770c20) and the lifecycle pass that follows pins nothing: every pin a replay
+leaves addresses one of the entries it records in `previousTransitions`. -/
+
+theorem replayTransitions_targets (m : Mach U) (ts : List Transition) (s : Nat) :
+    (m.replayTransitions ts).1.w.targets.getD s none = m.w.clearTargets.targets.getD s none ∨
+    ∃ i, i < m.w.cfg.historyCap ∧ i < ts.length ∧ (m.replayTransitions ts).1.w.targets.getD s none = some i := by
+  have h0 : ({ m with w := { m.w.clearTargets with previous := [] } } : Mach U).w.cfg = m.w.cfg :=
+    World.clearTargets_cfg _
+  unfold replayTransitions
+  dsimp only
+  split
+  · exact .inl rfl
+  · have hr := applyRequests_rel ({ m with w := { m.w.clearTargets with previous := [] } } : Mach U) ts
+    rw [h0] at hr
+    have ht := hr.targets s
+    clear hr
+    generalize Mach.applyRequests ({ m with w := { m.w.clearTargets with previous := [] } } : Mach U) ts = res at ht
+    obtain ⟨m1, chg⟩ := res
+    dsimp only at ht ⊢
+    have key : m1.w.targets.getD s none = m.w.clearTargets.targets.getD s none ∨
+        ∃ i, i < m.w.cfg.historyCap ∧ i < ts.length ∧ m1.w.targets.getD s none = some i := by
+      rcases ht with h | ⟨i, _, hi, h⟩
+      · exact .inl h
+      · exact .inr ⟨i, by omega, by omega, h⟩
+    split
+    · dsimp only
+      rw [updActivity_w, (Node.commit_steps _ _ _ (Steps.refl _)).targets_of_no_pin (fun _ h => h)]
+      exact key
+    · exact key
+
+theorem replayEnter_targets (m : Mach U) (ts : List Transition) (s : Nat) :
+    (m.replayEnter ts).1.w.targets.getD s none = m.w.clearTargets.targets.getD s none ∨
+    ∃ i, i < m.w.cfg.historyCap ∧ i < ts.length ∧ (m.replayEnter ts).1.w.targets.getD s none = some i := by
+  unfold replayEnter
+  dsimp only
+  split
+  · exact .inl rfl
+  · have s0 := Node.request_steps m.root ⟨.change, none⟩
+      ((m.w.clearTargets.freshControl).snapshot m.root true false) _ (Steps.refl _)
+    have c0 : (m.root.request ⟨.change, none⟩ ((m.w.clearTargets.freshControl).snapshot m.root true false)).2.cfg = m.w.cfg :=
+      s0.frame.cfg.trans (World.clearTargets_cfg _)
+    have t0 : (m.root.request ⟨.change, none⟩ ((m.w.clearTargets.freshControl).snapshot m.root true false)).2.targets.getD s none =
+        m.w.clearTargets.targets.getD s none := by
+      rcases (s0.frame.applyRelNone (fwd_requests s0) 0).targets s with h | ⟨i, h1, h2, _⟩
+      · exact h
+      · omega
+    clear s0
+    generalize m.root.request ⟨.change, none⟩ ((m.w.clearTargets.freshControl).snapshot m.root true false) = r0 at c0 t0
+    obtain ⟨root1, w1⟩ := r0
+    dsimp only at c0 t0 ⊢
+    have hr := applyRequests_rel ({ m with root := root1, w := w1 } : Mach U) ts
+    have ht := hr.targets s
+    clear hr
+    generalize Mach.applyRequests ({ m with root := root1, w := w1 } : Mach U) ts = res at ht
+    obtain ⟨m1, chg⟩ := res
+    dsimp only at ht ⊢
+    have key : m1.w.targets.getD s none = m.w.clearTargets.targets.getD s none ∨
+        ∃ i, i < m.w.cfg.historyCap ∧ i < ts.length ∧ m1.w.targets.getD s none = some i := by
+      rcases ht with h | ⟨i, _, hi, h⟩
+      · exact .inl (h.trans t0)
+      · rw [c0] at hi
+        exact .inr ⟨i, by omega, by omega, h⟩
+    split
+    · dsimp only
+      rw [updActivity_w, (Node.enter_steps _ _ _ (Steps.refl _)).targets_of_no_pin (fun _ h => h)]
+      exact key
+    · exact key
+
+omit [UtilArith U] in
+theorem clearTargets_getD (w : World U) (hh : w.cfg.history = true) (s : Nat) : w.clearTargets.targets.getD s none = none := by
+  unfold World.clearTargets
+  rw [if_pos hh]
+  dsimp only
+  rw [List.getD_eq_getElem?_getD, List.getElem?_replicate]
+  split <;> rfl
 
 end Mach
 end Hfsm
